@@ -406,7 +406,9 @@ def make_kind_group(kindname):
                 holder["fn"] = fn
                 m = Machine()
                 gen = m.call_value(fn, node)
-                ys, res = CU.drive(gen)
+                ys, res = CU.drive(gen, compose=(m, '"'))
+                ys = [y for y in ys if isinstance(y["child"], Opaque)]
+                CU.CUR_M[0] = m
                 spec = CU.production(node)
                 req = CU.requested_children(node)
                 return dict(kind=kindname, node=node, ys=ys, res=res, spec=spec, req=req)
@@ -678,3 +680,83 @@ def _register():
 
 
 _register()
+
+
+# ----------------------------------------------------------------------------------------
+# replay: turn a failed obligation into a concrete failing input for the REAL unparser
+
+
+def _native_unparse():
+    return _eu().expr_unparse
+
+
+def replay_kind(rp):
+    """all stored concrete shapes of the kind, round-tripped through the real expr_unparse"""
+    from spec import samples
+    kind = rp["kindname"]
+    tried = []
+    base = kind.split("[")[0]
+    pool = list(samples.kind_samples(base))
+    for k2 in {"Slice": ["Subscript"], "Starred": ["List", "Tuple", "Call", "Set"], "FormattedValue": ["JoinedStr"],
+               "Subscript": ["Subscript"]}.get(base, []):
+        pool += list(samples.kind_samples(k2))
+    # every kind also as a child of the generic containers (covers Starred/Slice/FormattedValue)
+    for src, node in pool:
+        ok, text, why = samples.roundtrip(_native_unparse(), node)
+        tried.append(src)
+        if not ok:
+            return dict(reproduced=True, input=src, output=text, why=why, obligation_facts=rp.get("facts"))
+    return dict(reproduced=False, tried=tried, note="no stored concrete shape of this kind fails natively")
+
+
+def replay_slot(rp):
+    from spec import samples
+    parent, label, child = rp["parent"], rp["label"], rp["child"]
+    try:
+        node = samples.make_parent(parent, label, samples.child_sample(child))
+    except KeyError as e:
+        return dict(reproduced=False, note=f"no concrete builder for {e}")
+    ok, text, why = samples.roundtrip(_native_unparse(), node)
+    if not ok:
+        return dict(reproduced=True, input_tree=ast.dump(node), reference_text=_safe_unparse(node), output=text, why=why)
+    return dict(reproduced=False, input_tree=ast.dump(node), output=text)
+
+
+def _safe_unparse(node):
+    try:
+        return ast.unparse(ast.fix_missing_locations(node))
+    except Exception as e:  # noqa: BLE001
+        return f"<ast.unparse failed: {e}>"
+
+
+def replay_table(rp):
+    from spec import samples
+    key = rp["key"]
+    for kind in list(samples.KIND_SRC):
+        if kind.endswith("." + key) or (kind == "Compare"):
+            for src, node in samples.kind_samples(kind):
+                if kind == "Compare" and key not in ast.dump(node):
+                    continue
+                ok, text, why = samples.roundtrip(_native_unparse(), node)
+                if not ok:
+                    return dict(reproduced=True, input=src, output=text, why=why)
+    # comparison operators not in the stored samples: build one
+    if hasattr(ast, key) and issubclass(getattr(ast, key), ast.cmpop):
+        node = ast.Compare(left=ast.Name("a", ast.Load()), ops=[getattr(ast, key)()], comparators=[ast.Name("b", ast.Load())])
+        ok, text, why = samples.roundtrip(_native_unparse(), node)
+        if not ok:
+            return dict(reproduced=True, input_tree=ast.dump(node), output=text, why=why)
+    return dict(reproduced=False)
+
+
+def replay_quote(rp):
+    from spec import samples
+    for src in ["f'{\"a\"}'", "f\"{'a'}\"", "f'{f\"{x}\"}'", "f'{d[\"k\"]}'", "f'{x:{\"w\"}}'"]:
+        node = samples.parse_expr(src)
+        ok, text, why = samples.roundtrip(_native_unparse(), node)
+        if not ok:
+            return dict(reproduced=True, input=src, output=text, why=why)
+    return dict(reproduced=False)
+
+
+REPLAY = {"kind": replay_kind, "slot": replay_slot, "table": replay_table, "quote": replay_quote}
